@@ -55,6 +55,17 @@ for _n, _b in (('VfA', Exception), ('VfB', Exception), ('VfC', LookupError),
     EXC['twin:' + _n] = type(_n, (_b,), {})
 
 
+# an application's own hierarchy whose class names are also names of
+# builtin / zExceptions exceptions (as requests, redis ... define them)
+_svc = type('ServiceError', (Exception,), {})
+_con = type('ConnectionError', (_svc,), {})
+EXC['user:ServiceError'] = _svc
+EXC['user:ConnectionError'] = _con
+EXC['user:TimeoutError'] = type('TimeoutError', (_con,), {})
+EXC['user:NotFound'] = type('NotFound', (_svc,), {})
+EXC['user:KeyError'] = type('KeyError', (_svc,), {})
+
+
 class Injected(Exception):
     """Marker mixin is not used: the injected exception is VfA itself so
     that dtml-except VfA handlers can catch it."""
